@@ -35,6 +35,9 @@ type regP uint8 // a byte-kinded element type: slices and arrays of it are "byte
 // regU: an unsafe string of a type that is never registered -- the sentinel printed AFTER a value of a registered type
 type regU string
 
+// regN: an integer type that is never registered
+type regN int
+
 const regSentinel = regU("zq9")
 
 var regTypes = map[string]reflect.Type{
@@ -44,6 +47,31 @@ var regTypes = map[string]reflect.Type{
 	"u8elem": reflect.TypeOf(regP(0)),
 	// the redactable types themselves: registered or not, what a redactable holds inside its envelopes stays there
 	"rstr": reflect.TypeOf(redact.RedactableString("")), "rbytes": reflect.TypeOf(redact.RedactableBytes(nil)),
+}
+
+// regNamesake: a value of ANOTHER type that has the qualified name of the type the model registers under t (a type
+// declared inside a function: reflect.Type.String(), Name() and PkgPath() are those of the package-level one). It is
+// never registered: whatever the registry holds, its content stays enveloped.
+func regNamesake(t string) interface{} {
+	switch t {
+	case "int":
+		type regI int
+		return regI(0x7a7139)
+	case "string":
+		type regS string
+		return regS("zq9")
+	case "struct":
+		// (fields of types that are never registered: registering the built-in int or string must not show them)
+		type regT struct {
+			A regN
+			b regU
+		}
+		return regT{0x7a7139, "zq9"}
+	case "float":
+		type regF float64
+		return regF(8024377.25)
+	}
+	return nil
 }
 
 func regValue(t string) interface{} {
@@ -120,6 +148,11 @@ func regLeakProbes(t string) []string {
 			string(redact.Sprint(regSentinel)))
 		// behind unexported fields (reflection cannot turn these back into interface values), typed and untyped
 		out = append(out, string(redact.Sprintf(verb+"|%v", struct{ x, y interface{} }{v.Interface(), regSentinel}, regSentinel)))
+		if ns := regNamesake(t); ns != nil {
+			// a different type of the same qualified name, at top level, in an interface slice and in a typed field
+			out = append(out, string(redact.Sprintf(verb+"|%v", ns, []interface{}{ns})),
+				string(redact.Sprintf(verb, struct{ X, y interface{} }{ns, ns})))
+		}
 		switch x := v.Interface().(type) {
 		case redact.RedactableString:
 			out = append(out, string(redact.Sprintf(verb+"|%v", struct {
@@ -232,7 +265,7 @@ func registryReplay(args []string) {
 					// stays enveloped, in every spelling the verbs give it
 					for j, p := range probes {
 						vis := string(lib.DeleteEnvelopes([]byte(p)))
-						for _, sp := range []string{"zq9", "7a7139", "7A7139", "zq8"} {
+						for _, sp := range []string{"zq9", "7a7139", "7A7139", "zq8", "8024377"} {
 							if strings.Contains(vis, sp) {
 								rep.Violate("registry:unsafe-after-registered-visible", fmt.Sprintf("after registering %v: the unsafe value printed after a %s value is in the clear: %q (probe %d)", ln.Order[:i], strings.TrimSuffix(t, "#leak"), p, j), ln)
 							}
